@@ -13,6 +13,7 @@ mod c01dir;
 mod c04;
 mod c04dir;
 mod c09;
+mod c02;
 mod consumer;
 mod c12;
 mod c13;
@@ -75,6 +76,7 @@ fn main() {
         "c03" => c01::run(&out, &tier, seed, shards, replay, "C03"),
         "c04" => c04::run(&out, &tier, seed, shards, replay),
         "c09" => c09::run(&out, &tier, seed, shards, replay),
+        "c02" => c02::run(&out, &tier, seed, shards, replay),
         "c11" => c11::run(&out, &tier, seed, shards, replay),
         other => {
             eprintln!("unknown command {}", other);
